@@ -51,9 +51,11 @@ T = {
          "returns the original, given three stated facts about the stream decoders (each inverts its encoders; zlib streams start with a valid zlib header; encoder-produced raw streams do not); "
          "induction on the coding list, for ANY decoders. With the executable model of flate2/miniz_oxide (Model/Inflate.v: raw inflate with miniz's table rules, zlib, gzip incl. all header options, "
          "CRC-32, Adler-32) in place of the parameters, C13_stored_encoders_inverted proves the three facts -- and hence the inversion of every stack over every body -- for the stored-block encoders "
-         "(DEFLATE level 0, any partition into blocks, bare / zlib with any valid header / gzip with any header the parser accepts), with no hypothesis left. For Huffman-coded blocks (levels 1-9) "
+         "(DEFLATE level 0, any partition into blocks, bare / zlib with any valid header / gzip with any header the parser accepts), with no hypothesis left. Huffman-coded blocks: "
+         "C13_canonical_code_decodes (for EVERY list of code lengths the canonical code of a symbol decodes to it) and C13_fixed_block_inverted (a final fixed-code block with any literals and matches, "
+         "specified by its bits, decodes to RFC 1951's byte-at-a-time copy semantics; C13_fast_copy_is_rfc_copy) are proved; for dynamic-header blocks and multi-block Huffman streams "
          "the facts stay hypotheses, sampled: levels 0-9, all strategies, empty/tiny/random/repetitive/pre-compressed bodies up to 1.1 MB, depth <= 3, gzip header options, decode-after-failed-decode histories.",
-         "PARTIAL for Huffman-coded blocks: no encoder is modelled for them. The inflate model is tied to the real flate2 (called directly, not through rhymuweb) on every stream of every run (counts in the evidence) and by tools/fuzz_inflate.py (410k streams incl. hand-assembled dynamic blocks, 0 disagreements)."),
+         "PARTIAL for dynamic-header Huffman blocks: no encoder of the block header is modelled. The inflate model is tied to the real flate2 (called directly, not through rhymuweb) on every stream of every run (counts in the evidence) and by tools/fuzz_inflate.py (410k streams incl. hand-assembled dynamic blocks, 0 disagreements)."),
  "C14": ("Theorems C14_success (kept ++ undone split of the token list, body = undo of exactly the undone suffix, one Content-Encoding header with the kept tokens joined by ', ' or none, "
          "single Content-Length = |body|, all other headers unchanged in order), C14_failure_atomic, C14_succeeds_when_undoable; for every behaviour of the three decoders (parameters).", ""),
  "C15": ("For ANY stream decoders (parameters): C15_outer_decoder_error_is_failure, C15_truncation_fails, C15_success_is_full_decoder_output, C15_zlib_never_falls_back -- the crate's glue cannot bypass "
